@@ -350,6 +350,9 @@ package flags
 // (C06, C05: an occurrence that is accepted counts as "supplied on the command line", whatever its spelling -
 // a bare occurrence of an option with an optional argument and no optional-value included)
 //@   ensures[C06,C05] err == nil ==> option.isSet && option.preventDefault
+// (C01: occurrences of a slice or map option accumulate - a bare occurrence of one with an optional argument
+// adds its optional values, it does not throw away what earlier occurrences stored)
+//@   at[C01] call Option.empty #1: !collType(option.value.Type())
 //@   ensures[C02,C04] ca && argument == nil && !takes && !option.OptionalArgument ==> isTyped(err, ErrExpectedArgument) && ncalls(Option.Set) == n0
 //@   ensures[C04] err != nil ==> is(err, *Error) && as(err, *Error) != nil
 //@   ensures[C03] same(s.args, old(s.args)) || (len(old(s.args)) > 0 && same(s.args, old(s.args)[1:]))
@@ -795,6 +798,14 @@ package flags
 //@   pure
 //@   ensures is(err, *Error) ==> as(err, *Error) != nil
 
+//@ func (option *Option) isCollection() (r bool)
+//@   props C01 C04
+//@   pure
+//@   requires option != nil
+//@   loop 1 invariant use(wf_type, tp) && unfold(collType(tp)) && collType(tp) == collType(option.value.Type())
+//@   loop 1 decreases tdepth(tp)
+//@   ensures[C01] unfold(collType(option.value.Type())) && r == collType(option.value.Type())
+//@   assigns nothing
 //@ func (option *Option) isBool() (r bool)
 //@   props C01 C02 C19 C04
 //@   pure
